@@ -317,6 +317,28 @@ Proof.
   - destruct (time_until_send (pc s) (bw_est s srtt)); cbn [fst]; lia.
 Qed.
 
+(** ** Hybrid slow start: an exit only lowers ssthresh to the current window *)
+
+Theorem exit_ss_only_lowers_ssthresh : forall s latest minrtt,
+  let s' := step s (ExitSS latest minrtt) in
+  cwnd s' = cwnd s /\ mds s' = mds s /\ ls s' = ls s /\ la s' = la s /\ lc s' = lc s /\ nacked s' = nacked s /\
+  pc s' = pc s /\
+  (ssthresh s' = ssthresh s \/ (ssthresh s' = cwnd s /\ cwnd s < ssthresh s)).
+Proof.
+  intros s latest minrtt. unfold step, step_full, maybe_exit_ss; cbn [fst].
+  destruct (in_slow_start s) eqn:Hss; [|repeat split; auto].
+  destruct (hs_should_exit (hs s) latest minrtt (Z.quot (cwnd s) (mds s))) as [h' ex].
+  destruct ex; projs; repeat split; auto.
+  right. split; [reflexivity|]. unfold in_slow_start in Hss. apply Z.ltb_lt. exact Hss.
+Qed.
+
+(** the exit really happens: eight RTT samples 25 ms above a 20 ms minimum within one round *)
+Example exit_ss_example :
+  let s := run (new_sender 1280 true 100000000) (repeat (ExitSS 45000000 20000000) 8) in
+  cwnd s = 40960 /\ ssthresh s = 40960 /\ hs_found (hs s) = true /\
+  ssthresh (run (new_sender 1280 true 100000000) (repeat (ExitSS 45000000 20000000) 7)) = cc_maxByteCount.
+Proof. vm_compute. repeat split; reflexivity. Qed.
+
 (** ** Growth only while window-limited *)
 
 Theorem growth_needs_limit : forall s pn bytes prior now orc, reno s = true ->
